@@ -122,18 +122,49 @@ type runner struct {
 	deadline   time.Time
 	seed       int64
 	extraEnv   []string
+	noResume   bool
 }
 
-// runShard runs one shard to completion, restarting after worker deaths with the fatal cases poisoned.
+// runShard runs one shard to completion. After a worker death the case the worker had announced is
+// "poisoned" (reported by the harness as fatal:<kind> instead of executed) and the shard is run
+// again, fast-forwarding past the cases already executed where the harness allows it. Failures are
+// streamed by the worker as it finds them, so those of a dead attempt are kept.
 func (r *runner) runShard(idx int, shard string) (*core.Result, []crash, error) {
 	var crashes []crash
 	var poison []string
+	var streamed []core.Failure
+	var resume int64
 	prog := filepath.Join(r.scratch, fmt.Sprintf("progress.%d", idx))
-	for attempt := 0; attempt < 40; attempt++ {
+	maxDeaths := 60
+	if r.noResume {
+		maxDeaths = 12
+	}
+	giveUp := func(why string) (*core.Result, []crash, error) {
+		// Deaths that could not all be worked around: report what is known instead of failing.
+		res := &core.Result{Property: r.prop, Tier: r.tier, Shard: shard, Outcomes: map[string]int64{}, FailCounts: map[string]int64{}, Exhaustive: false}
+		res.Notes = append(res.Notes, why)
+		for _, c := range crashes {
+			f := core.Failure{Property: r.prop, Tier: r.tier, Shard: shard, Case: c.Case, Classes: []string{}, Fingerprint: "fatal:" + c.Kind,
+				Input: json.RawMessage(fmt.Sprintf(`{"shard":%q,"case":%d,"note":"input not recovered: the shard was abandoned after repeated worker deaths"}`, shard, c.Case)), Observed: c.Text}
+			streamed = append(streamed, f)
+		}
+		mergeStreamed(res, streamed)
+		return res, crashes, nil
+	}
+	for attempt := 0; ; attempt++ {
+		if len(crashes) >= maxDeaths {
+			return giveUp(fmt.Sprintf("abandoned after %d worker deaths", len(crashes)))
+		}
+		if len(crashes) > 0 && time.Now().After(r.deadline) {
+			return giveUp(fmt.Sprintf("internal deadline reached after %d worker deaths", len(crashes)))
+		}
 		os.Remove(prog)
 		args := []string{"run", r.prop, r.tier, shard, "-progress", prog, "-deadline", strconv.FormatInt(r.deadline.Unix(), 10), "-seed", strconv.FormatInt(r.seed, 10)}
 		if len(poison) > 0 {
 			args = append(args, "-poison", strings.Join(poison, ","))
+		}
+		if resume > 0 && !r.noResume {
+			args = append(args, "-resume", strconv.FormatInt(resume, 10))
 		}
 		ctx, cancel := context.WithDeadline(context.Background(), r.deadline.Add(90*time.Second))
 		cmd := exec.CommandContext(ctx, r.worker, args...)
@@ -142,16 +173,34 @@ func (r *runner) runShard(idx int, shard string) (*core.Result, []crash, error) 
 		var out, errb bytes.Buffer
 		cmd.Stdout, cmd.Stderr = &out, &errb
 		err := cmd.Run()
+		timedOut := ctx.Err() == context.DeadlineExceeded
 		cancel()
+		lines := bytes.Split(bytes.TrimSpace(out.Bytes()), []byte("\n"))
+		for _, l := range lines {
+			if bytes.HasPrefix(l, []byte(`{"failure":`)) {
+				var w struct {
+					Failure core.Failure `json:"failure"`
+				}
+				if json.Unmarshal(l, &w) == nil {
+					streamed = append(streamed, w.Failure)
+				}
+			}
+		}
 		if err == nil {
 			var res core.Result
-			lines := bytes.Split(bytes.TrimSpace(out.Bytes()), []byte("\n"))
 			if e := json.Unmarshal(lines[len(lines)-1], &res); e != nil {
 				return nil, crashes, fmt.Errorf("shard %s: bad result record: %v: %.300s", shard, e, out.String())
 			}
+			if resume > 0 && !r.noResume {
+				res.Notes = append(res.Notes, fmt.Sprintf("counts exclude the %d cases executed by attempts that died", resume))
+			}
+			mergeStreamed(&res, streamed)
 			return &res, crashes, nil
 		}
-		if ctx.Err() != nil {
+		if timedOut {
+			if len(crashes) > 0 {
+				return giveUp("the hard deadline passed while working around worker deaths")
+			}
 			return nil, crashes, fmt.Errorf("shard %s: worker overran the hard deadline", shard)
 		}
 		hang := strings.Contains(out.String(), `"hang":true`)
@@ -169,8 +218,28 @@ func (r *runner) runShard(idx int, shard string) (*core.Result, []crash, error) 
 		}
 		crashes = append(crashes, crash{shard, caseNo, kind, txt})
 		poison = append(poison, fmt.Sprintf("%d:%s", caseNo, kind))
+		resume = caseNo
 	}
-	return nil, crashes, fmt.Errorf("shard %s: more than 40 worker deaths, giving up", shard)
+}
+
+// mergeStreamed adds failures streamed by attempts that died to the result of the final attempt.
+func mergeStreamed(res *core.Result, streamed []core.Failure) {
+	have := map[string]bool{}
+	for _, f := range res.Failures {
+		have[fmt.Sprintf("%d|%s", f.Case, f.Key())] = true
+	}
+	for _, f := range streamed {
+		k := fmt.Sprintf("%d|%s", f.Case, f.Key())
+		if have[k] {
+			continue
+		}
+		have[k] = true
+		res.Failures = append(res.Failures, f)
+		if res.FailCounts == nil {
+			res.FailCounts = map[string]int64{}
+		}
+		res.FailCounts[f.Key()]++
+	}
 }
 
 type evidence struct {
@@ -238,6 +307,7 @@ func check(prop, tier string, seed int64, scratch string, t0 time.Time) int {
 		Variant     string   `json:"variant"`
 		Rule        string   `json:"rule"`
 		Assumptions []string `json:"assumptions"`
+		NoResume    bool     `json:"no_resume"`
 	}
 	if out, err := runWorker(worker, extraEnv, "meta", prop); err != nil {
 		internal("worker meta: %v", err)
@@ -262,7 +332,7 @@ func check(prop, tier string, seed int64, scratch string, t0 time.Time) int {
 		shards = append(append([]string{}, shards[k:]...), shards[:k]...)
 	}
 
-	r := &runner{prop: prop, tier: tier, worker: worker, scratch: scratch, deadline: deadline, seed: seed, extraEnv: extraEnv}
+	r := &runner{prop: prop, tier: tier, worker: worker, scratch: scratch, deadline: deadline, seed: seed, extraEnv: extraEnv, noResume: meta.NoResume}
 	par := 16
 	if s := os.Getenv("VERIF_PAR"); s != "" {
 		if n, err := strconv.Atoi(s); err == nil && n > 0 {
@@ -401,20 +471,24 @@ func check(prop, tier string, seed int64, scratch string, t0 time.Time) int {
 		}
 		// a new failure: confirm by replay in fresh processes
 		path := writeReplay(prop, &f)
-		okN, badN, detail := confirm(worker, extraEnv, prop, tier, path, f.Fingerprint, 5)
-		// A race report is proof by itself (the detector has no false positives), but whether the
-		// detector still remembers the earlier access when the later one happens depends on its
-		// bounded shadow memory: one reproduction out of five is required there, five of five
-		// everywhere else.
-		need := 5
-		if strings.Contains(f.Fingerprint, "data-race") || strings.HasPrefix(f.Fingerprint, "stress:") {
-			need = 1
+		okN, badN, detail := 0, 0, ""
+		if strings.HasPrefix(f.Fingerprint, "fatal:") && bytes.Contains(f.Input, []byte("input not recovered")) {
+			okN = 5 // the worker deaths themselves were observed (repeatedly); there is no input to replay
+		} else {
+			okN, badN, detail = confirm(worker, extraEnv, prop, tier, path, f.Fingerprint, 5)
 		}
+		// A failure is confirmed when it shows again in a fresh process - with whatever fingerprint:
+		// the oracles are deterministic functions of what the library returns, but the library's own
+		// behaviour may depend on Go's map iteration order (uncontrolled outside the order variant),
+		// on the race detector's bounded memory, or end in a crash one time and a wrong tree the
+		// next. One reproduction out of five confirms; none at all is treated as an error of the
+		// machinery, because then nothing distinguishes the report from harness nondeterminism.
+		need := 1
 		switch {
 		case okN >= need:
 			violations += int(agg.FailCounts[k])
 			violationLines = append(violationLines, fmt.Sprintf("VIOLATION property=%s replay=%s", prop, path))
-			fmt.Fprintf(os.Stderr, "violation: classes=%v fingerprint=%s count=%d\n  input=%.600s\n  expected=%.600s\n  observed=%.600s\n", f.Classes, f.Fingerprint, agg.FailCounts[k], f.Input, f.Expected, f.Observed)
+			fmt.Fprintf(os.Stderr, "violation (reproduced %d/5): classes=%v fingerprint=%s count=%d\n  input=%.600s\n  expected=%.600s\n  observed=%.600s\n", okN, f.Classes, f.Fingerprint, agg.FailCounts[k], f.Input, f.Expected, f.Observed)
 			if len(fs) > 1 {
 				var where []string
 				for i, g := range fs {
@@ -570,13 +644,8 @@ func confirm(worker string, extraEnv []string, prop, tier, path, fingerprint str
 		timedOut := ctx.Err() != nil
 		cancel()
 		if err != nil {
-			kind := classifyDeath(errb.String(), timedOut)
-			if "fatal:"+kind == fingerprint {
-				same++
-			} else {
-				other++
-				detail = fmt.Sprintf("replay died: %s: %.500s", kind, errb.String())
-			}
+			same++ // the replay died: the case fails
+			detail = "replay died: " + classifyDeath(errb.String(), timedOut)
 			continue
 		}
 		var r struct {
@@ -586,7 +655,7 @@ func confirm(worker string, extraEnv []string, prop, tier, path, fingerprint str
 		}
 		lines := bytes.Split(bytes.TrimSpace(out.Bytes()), []byte("\n"))
 		json.Unmarshal(lines[len(lines)-1], &r)
-		if r.Fails && r.Fingerprint == fingerprint {
+		if r.Fails {
 			same++
 		} else {
 			other++
